@@ -167,7 +167,7 @@ impl PropImpl for C19 {
         vec!["signed", "unsigned", "no-headers", "empty-payload", "payload:blank-line", "payload:marker-look-alike", "signature:blank-line", "empty-signature", "appended-lines", "appended-only-blank-lines"]
     }
     fn budget(&self, tier: Tier) -> Budget {
-        Budget { cases_per_lane: if tier == Tier::Quick { 10000 } else { 40_000 }, tape_max: 400, cpu_s: 10 }
+        Budget { cases_per_lane: if tier == Tier::Quick { 30000 } else { 120000 }, tape_max: 400, cpu_s: 10 }
     }
     fn spaces(&self, _tier: Tier) -> Vec<Space> {
         vec![Space { name: "all messages with <= 2 lines per section over 5-line alphabets, every fault each".into(), size: 31 * 31 * 31, exhaustive: true }]
